@@ -47,9 +47,9 @@ def alphabet(world, h):
 
 def plan(tier):
     W = worlds.curated()
-    names = ["csum-mid", "csum-deep", "csum-two", "csum-two-b", "csum-fan"]
+    names = ["csum-mid", "csum-deep", "csum-two", "csum-two-b", "csum-fan", "csum-toggle"]
     if tier == "quick":
-        return [(W[n], alphabet, 3) for n in names]
+        return [(W[n], alphabet, 3, 2) for n in names]
     G = worlds.generated()
     p = [(W[n], alphabet, 5) for n in names]
     p += [(G[k], alphabet, 4) for k in sorted(G) if "c:" in k]   # generated graphs containing a csum node
